@@ -4,7 +4,8 @@
 (* max_sequences in {None(-1), 0, 1, 2}, word / char-1 / char-3 modes.          *)
 EXTENDS Naturals, Integers, Sequences, FiniteSets, SequencesExt, TLC, Json, IOUtils
 CONSTANTS MaxLines
-LinePool == {<<>>, <<2>>, <<2, 1, 3>>, <<2, 5, 3>>, <<4, 4>>, <<2, 1, 2, 1, 4, 4>>, <<3, 1, 1, 2>>, <<5>>, <<2, 3, 1, 3, 2>>}
+\* slot 8: a letter of two code points (one character in the character modes); <<1, 1>>: a whitespace-only line
+LinePool == {<<>>, <<2>>, <<2, 1, 3>>, <<2, 5, 3>>, <<4, 4>>, <<2, 1, 2, 1, 4, 4>>, <<3, 1, 1, 2>>, <<5>>, <<2, 3, 1, 3, 2>>, <<8, 2, 1, 8>>, <<1, 1>>}
 Corpora == UNION {[1..n -> LinePool] : n \in 0..MaxLines}
 Cases == {[lines |-> c, max_size |-> ms, max_seq |-> mq, mode |-> m, threads |-> <<0, 1, 2, 4>>, split |-> 1,
            queries |-> << <<2>>, <<4, 4, 4>>, <<3, 2>>, <<>> >>] :
